@@ -45,7 +45,10 @@ EXTRA_VALUES = ["[1]", "[1, 2]", "(1, 2)", "{1, 2}", "{'a': 1, 'b': 2}", "[1.5]"
                 "1.0", "0.0", "Fraction(5, 2)", "10**30", "'1e2'", "1e2", "bytearray(b'abc')", "'true '", "[True]", "[[1, 2]]",
                 "MyInt(1)", "MyStr('1')", "'2020-02-20 00:00:00.500000'", "'2020-02-20T00:00:00.000001'", "1582156800.5",
                 "1582156800", "1582156801", "datetime(2020,2,20,0,0,0,500000)", "datetime(2020,2,20)", "b'2020-02-20 00:00:00.5'",
-                "Decimal('1.5')", "Decimal('1582156800.5')"]
+                "Decimal('1.5')", "Decimal('1582156800.5')",
+                # collections of mappings / pairs as input of a mapping target
+                "[{'a': 1, 'b': 2}]", "[{'a': 1, 'b': 2}, {'c': 3, 'd': 4}]", "[('a', 1)]", "[['a', 1], ['b', 2]]", "({'a': 1},)",
+                "[{'a': 1}, ('b', 2)]"]
 
 
 def bounds(tier):
@@ -362,8 +365,11 @@ def _dataclass(acc):
         env["__name__"] = "utmc.ns"
         exec(src, env)
         s_cls = env["S"]
+        _NS["S"] = s_cls            # the input expressions below name the class
         for vx in ("{'a': 1}", "{'a': 1, 'zz': 2}", "{'a': '1', 'zz': 2, 'yy': 3}", "[{'a': 1}]", "[{'a': 1}, {'a': 2}]", "'a=1&zz=2'",
-                   "'{\"a\": 1}'", "{'a': 1.5}", "{'a': '1.5'}", "[('a', 1)]", "(('a', 1),)"):
+                   "'{\"a\": 1}'", "{'a': 1.5}", "{'a': '1.5'}", "[('a', 1)]", "(('a', 1),)", "[{'a': 1, 'b': 'x'}]", "[{'a': 1, 'b': 'x'}, {'a': 2, 'b': 'y'}]",
+                   # elements that already are instances of the class
+                   "[S(a=1)]", "[S(a=1), S(a=2)]", "(S(a=1), {'a': 2})", "[S(a=1), 5, 6]", "[{'a': 1}, S(a=2)]"):
             acc.states += 1
             tt_res = [convert(s_cls, vx, oi) for oi in range(4)]
             res = [_from(s_cls, vx, oi) for oi in range(4)]
@@ -397,6 +403,16 @@ def _dataclass(acc):
                         canon(dict(res[0][1]) if isinstance(res[0][1], dict) else res[0][1].__dict__.get("a")):
                     # unknown keys are dropped without flags and rejected with no_data_loss: only compared when accepted
                     v(f"same-value-{flags}", f"{short(r[1], 50)} under {flags} vs {short(res[0][1], 50)}")
+            for oi in (2, 3):
+                r = tt_res[oi]
+                flags = "+".join(sorted(FLAGS[oi]))
+                if r[0] == "ok" and isinstance(x, (list, tuple)) and len(x) > 1:
+                    acc.violation(f"C12|{base}|type_transform-no-data-loss-collapse-{flags}|{_vshape(x)}",
+                                  f"type_transform({vx}, S) under {flags}: a collection of {len(x)} elements became one instance "
+                                  f"({short(r[1], 50)})",
+                                  "import sys\nsys.path.insert(0, '/verif')\nfrom utmc.ns import *\n" + src +
+                                  f"try:\n    print(type_transform({vx}, S, options=Options(**{FLAGS[oi]!r}))); sys.exit(1)\n"
+                                  f"except Exception as e:\n    print('rejected:', type(e).__name__, e); sys.exit(0)\n")
             for oi in (2, 3):
                 r = res[oi]
                 flags = "+".join(sorted(FLAGS[oi]))
